@@ -74,8 +74,12 @@ RECURSIVE U(_, _, _), Cont(_, _, _), Operand(_, _, _), LeftOp(_, _, _, _), Args(
 
 Atomic(t) == t[1] \in {"Field", "Literal", "CurrentNode"}
 
+(* st.sp: we are on the left spine of a continuation (right side of ".", projection right-hand side),
+   where nothing can be parenthesised; operands off the spine reset it *)
+OffSpine(st) == [st EXCEPT !.sp = FALSE]
 (* operand in a position where a loop of power c is active; st.full = parenthesise whenever the grammar allows *)
-Operand(t, c, st) ==
+Operand(t, c, st0) ==
+  LET st == OffSpine(st0) IN
   IF t = Identity THEN BAD
   ELSE IF st.full /\ ~Atomic(t) THEN Paren(U(t, 0, st))
   ELSE IF LedPow(t) > c THEN U(t, c, st) ELSE Paren(U(t, 0, st))
@@ -84,7 +88,8 @@ Operand(t, c, st) ==
 LeftOp(t, p, c, st) ==
   IF t = Identity THEN BAD
   ELSE IF st.full /\ ~Atomic(t) THEN Paren(U(t, 0, st))
-  ELSE IF LedPow(t) > c /\ RightOpen(t) >= p THEN U(t, c, st) ELSE Paren(U(t, 0, st))
+  ELSE IF LedPow(t) > c /\ RightOpen(t) >= p THEN U(t, c, st)
+  ELSE IF st.sp THEN BAD ELSE Paren(U(t, 0, st))
 
 NumTok(n) == <<"number", n>>
 SliceToks(parts) ==
@@ -99,7 +104,7 @@ SpineHead(x) ==
   ELSE IF x[1] = "Projection" THEN (IF LeftBase(x) = Identity THEN x ELSE SpineHead(LeftBase(x)))
   ELSE IF x[1] = "Comparator" THEN SpineHead(x[3])
   ELSE x
-NoFull(st) == [st EXCEPT !.full = FALSE]
+NoFull(st) == [st EXCEPT !.full = FALSE, !.sp = TRUE]
 DotAble(h) == h[1] \in {"Field", "FunctionExpression", "MultiSelectList", "MultiSelectHash"}
 
 (* right side of ".": identifier / function call / multi-select, possibly continued by tighter postfix
@@ -157,9 +162,9 @@ U(t, c, st) ==
          Cat3(IF t[2] = Identity THEN <<>> ELSE Cat(LeftOp(t[2], 40, c, st), <<T("dot")>>), <<T("star")>>, Cont(t[3], 20, st))
     [] OTHER -> BAD
 
-StMin == [full |-> FALSE, q |-> FALSE, raw |-> FALSE]
-StFull == [full |-> TRUE, q |-> FALSE, raw |-> FALSE]
-StQuoted == [full |-> FALSE, q |-> TRUE, raw |-> TRUE]
+StMin == [full |-> FALSE, q |-> FALSE, raw |-> FALSE, sp |-> FALSE]
+StFull == [full |-> TRUE, q |-> FALSE, raw |-> FALSE, sp |-> FALSE]
+StQuoted == [full |-> FALSE, q |-> TRUE, raw |-> TRUE, sp |-> FALSE]
 UnparseSt(t, st) == U(t, 0, st)
 UnparseMin(t) == U(t, 0, StMin)
 UnparseFull(t) == U(t, 0, StFull)
